@@ -188,9 +188,17 @@ PROPS.update({
         verus=[dict(name='c16', mode='T', roots=['lit.tables', 'seqarray.deref'])],
         c16=True,
     ),
+    'C18': dict(
+        level='other',
+        level_text='mixed: (complete, Kani) for k-mers the REAL serde derive expansion of `Kmer` and the real bincode 1.3 encoder/decoder are proved to round-trip every value of the storage word - loop-free harnesses over the full domain (all 2^64 usize/u64 and all 2^128 u128 words, Dna/Iupac, K = 1, 8, 16, 32, 64): image length = storage size, deserialize(serialize(k)).bs == k.bs, == holds; hash and display then agree because they are functions of the word (C02, C08); (bounded, labelled) an owned sequence is serialized by bitvec own serde implementation - external generic visitor code: Kani gave no verdict in 25 minutes for two symbolic words, serde_json none in 15 minutes for one k-mer - so sequences (7 codecs; lengths 0..70, every word boundary to 257, 1000, thorough to 10000; histories parsed / sliced-and-copied at any offset / truncated / removed / appended / prepended / inserted / pushed / cleared+extended / reversed in place and copying / rebuilt from a raw image) and the text format for both types are executed natively in both formats and compared by ==, len, symbols, hash, display',
+        level_note='no bio-seq function text exists for this property (two cfg_attr derives): what is verified is the derive OUTPUT composed with the real format crates; only the k-mer/bincode part is a proof (for those instantiations), everything else is a bounded stand-in; ' + KANI_NOTE,
+        technique='Kani complete harnesses (full storage domain) on the real serde derive expansion + bincode for k-mers; bounded native round trips for sequences and the text format',
+        explanation='obligations count the Kani checks of the k-mer harnesses only; the native round trips are listed under bounded_standins and are not proofs',
+        c18=True,
+    ),
     'C17': dict(
         level='other',
-        level_text='complete per declaration, bounded over declarations: tools/gen_c17.py writes enum declarations (a fixed boundary set: 2 and 40 variants, widths 1/3/7/8, default width for max discriminant 1..254 incl. every power-of-two boundary, binary/hex/byte literals, alternatives, display characters, over-wide declared width; plus VERIF_SEED-random ones, quick 12 / thorough 60); the REAL #[derive(Codec)] expands them when the harness crate is compiled; the codec contract (width, to_bits = discriminant, decoders accept exactly discriminants and alternatives, to_char / try_from_ascii, everything else refused, items() in declaration order) is proved by Kani for all 256 bytes per declaration against an oracle computed from the declaration text by the generator (independent of the macro), and re-executed natively; malformed declarations are compiled alone and must be refused with the derive own diagnostic',
+        level_text='complete per declaration, bounded over declarations: tools/gen_c17.py writes enum declarations (a fixed boundary set: 2 and 40 variants, widths 1/3/7/8, default width for max discriminant 1..254 incl. every power-of-two boundary, binary/hex/byte literals, alternatives, display characters, over-wide declared width; plus VERIF_SEED-random ones, quick 12 / thorough 60); the REAL #[derive(Codec)] expands them when the harness crate is compiled; the codec contract (width, to_bits = discriminant, decoders accept exactly discriminants and alternatives, to_char / try_from_ascii, everything else refused, items() in declaration order) is proved by Kani for all 256 bytes per declaration against an oracle computed from the declaration text by the generator (independent of the macro), and re-executed natively; malformed declarations are compiled alone and must fail to compile while the program of well-formed declarations compiles (whether the message is the derive own wording is recorded, not demanded)',
         level_note='the universally quantified statement is about the generator (parse_variants / parse_width / codec_derive: proc-macro code over syn token trees, outside Verus and Kani - Kani ICEs on it); what is verified is the generator OUTPUT for a bounded set of programs; ' + KANI_NOTE,
         technique='Kani codec contract on the real derive expansion of generated declarations (complete per declaration, bounded over declarations) + compiler runs for the rejection half',
         explanation='obligations count Kani checks and native law clauses over the generated declarations of this run (count = coverage.c17.declarations); bounded over programs, so not a proof of the quantified property; rejection cases are compiler runs listed under bounded_standins',
@@ -199,5 +207,4 @@ PROPS.update({
 })
 
 NOT_APPLICABLE = {
-    'C18': 'no bio-seq function text exists (two cfg_attr derives); behaviour is bitvec serde + bincode/serde_json, external generic visitor code outside both verifiers (DESIGN.md section 6)',
 }
